@@ -364,4 +364,225 @@ theorem json_readArray (t : Json.Tape) (idx : Nat) (r : Option (Nat × Nat))
         simp [jOut_ok _ _ hn, h]
     | _ => simpa [ht, jTok] using h
 
+
+/-! ### grouping -/
+
+/-- the groups `FieldGroupsIter` yields in the JSON model (`groupEntries` without the value
+serializer): the field that opens the group and the later occurrences of its key -/
+def jsonGroups : List Json.FieldE → List (Bytes × List Json.FieldE) → List (Json.FieldE × List Json.FieldE)
+  | [], _ => []
+  | fe :: rest, groups =>
+    match Json.groupRemove groups (Json.keyBytes fe.keyTok) with
+    | none => jsonGroups rest groups
+    | some (m, groups') => (fe, m) :: jsonGroups rest groups'
+
+/-- serializing the groups (json/mod.rs Group arm): one entry per group -/
+def serGroups (sv : Nat → Json.R Json.JVal) (enc : Json.Enc) :
+    List (Json.FieldE × List Json.FieldE) → Json.R (List (Bytes × Json.JVal))
+  | [] => .ok []
+  | (fe, []) :: rest =>
+    match sv fe.valIdx with
+    | .error f => .error f
+    | .ok jv =>
+      match serGroups sv enc rest with
+      | .error f => .error f
+      | .ok es => .ok ((Json.keyJson enc fe.keyTok, Json.wrapOp fe.op jv) :: es)
+  | (fe, m :: more) :: rest =>
+    match Json.opValues sv (fe :: m :: more) with
+    | .error f => .error f
+    | .ok vs =>
+      match serGroups sv enc rest with
+      | .error f => .error f
+      | .ok es => .ok ((Json.keyJson enc fe.keyTok, .arr vs) :: es)
+
+/-- `groupEntries` = serialize, in order, the groups `jsonGroups` lists -/
+theorem json_groupEntries (sv : Nat → Json.R Json.JVal) (enc : Json.Enc) :
+    ∀ (fs : List Json.FieldE) (groups : List (Bytes × List Json.FieldE)),
+      Json.groupEntries sv enc fs groups = serGroups sv enc (jsonGroups fs groups) := by
+  intro fs
+  induction fs with
+  | nil => intro groups; simp [Json.groupEntries, jsonGroups, serGroups]
+  | cons fe rest ih =>
+    intro groups
+    rw [Json.groupEntries, jsonGroups]
+    cases hr : Json.groupRemove groups (Json.keyBytes fe.keyTok) with
+    | none => simp only; exact ih groups
+    | some p =>
+      obtain ⟨m, groups'⟩ := p
+      cases m with
+      | nil =>
+        simp only [serGroups, ih groups']
+        cases sv fe.valIdx <;> simp
+        cases serGroups sv enc (jsonGroups rest groups') <;> simp
+      | cons m0 more =>
+        simp only [serGroups, ih groups']
+        cases Json.opValues sv (fe :: m0 :: more) <;> simp
+        cases serGroups sv enc (jsonGroups rest groups') <;> simp
+
+def NoDupKeys {α : Type} : List (Bytes × α) → Prop
+  | [] => True
+  | (k, _) :: rest => (∀ p ∈ rest, p.1 ≠ k) ∧ NoDupKeys rest
+
+def ovJ (fe : Json.FieldE) : Dom.OpValue := (jField fe).ov
+
+/-- the JSON model's association list as the Dom model's `KeyMap` -/
+def proj (gs : List (Bytes × List Json.FieldE)) : Dom.KeyMap := gs.map fun p => (p.1, p.2.map ovJ)
+
+theorem proj_insert (gs : List (Bytes × List Json.FieldE)) (fe : Json.FieldE) :
+    proj (Json.groupInsert gs fe) = (proj gs).enter (jField fe).keyBytes (jField fe).ov := by
+  induction gs with
+  | nil => simp [Json.groupInsert, proj, Dom.KeyMap.enter, jField]
+  | cons p rest ih =>
+    obtain ⟨k, vs⟩ := p
+    simp only [proj] at ih
+    by_cases hk : k = Json.keyBytes fe.keyTok
+    · simp [Json.groupInsert, proj, Dom.KeyMap.enter, hk, jField, ovJ]
+    · simp [Json.groupInsert, proj, Dom.KeyMap.enter, hk, jField] 
+      simpa [jField] using ih
+
+theorem proj_build (fs : List Json.FieldE) : ∀ gs,
+    proj (fs.foldl Json.groupInsert gs) = Dom.buildMap (fs.map jField) (proj gs) := by
+  induction fs with
+  | nil => intro gs; simp [Dom.buildMap]
+  | cons fe rest ih =>
+    intro gs
+    simp only [List.foldl_cons, List.map_cons, Dom.buildMap]
+    rw [ih, proj_insert]
+
+theorem insert_keys (gs : List (Bytes × List Json.FieldE)) (fe : Json.FieldE) :
+    (∀ p ∈ Json.groupInsert gs fe, p.1 = Json.keyBytes fe.keyTok ∨ ∃ q ∈ gs, q.1 = p.1) ∧
+    (NoDupKeys gs → NoDupKeys (Json.groupInsert gs fe)) := by
+  induction gs with
+  | nil => simp [Json.groupInsert, NoDupKeys]
+  | cons p rest ih =>
+    obtain ⟨k, vs⟩ := p
+    by_cases hk : k = Json.keyBytes fe.keyTok
+    · simp only [Json.groupInsert, hk, if_true]
+      constructor
+      · intro p hp
+        rcases List.mem_cons.mp hp with rfl | hp
+        · exact Or.inl rfl
+        · exact Or.inr ⟨p, List.mem_cons_of_mem _ hp, rfl⟩
+      · intro h; simpa [NoDupKeys, hk] using h
+    · simp only [Json.groupInsert, hk, if_false]
+      constructor
+      · intro p hp
+        rcases List.mem_cons.mp hp with rfl | hp
+        · exact Or.inr ⟨(k, vs), List.mem_cons_self, rfl⟩
+        · rcases ih.1 p hp with h | ⟨q, hq, hqk⟩
+          · exact Or.inl h
+          · exact Or.inr ⟨q, List.mem_cons_of_mem _ hq, hqk⟩
+      · intro h
+        simp only [NoDupKeys] at h ⊢
+        refine ⟨?_, ih.2 h.2⟩
+        intro p hp
+        rcases ih.1 p hp with h1 | ⟨q, hq, hqk⟩
+        · rw [h1]; exact fun hc => hk hc.symm
+        · rw [← hqk]; exact h.1 q hq
+
+theorem build_nodup (fs : List Json.FieldE) : ∀ gs, NoDupKeys gs → NoDupKeys (fs.foldl Json.groupInsert gs) := by
+  induction fs with
+  | nil => intro gs h; simpa using h
+  | cons fe rest ih => intro gs h; exact ih _ ((insert_keys gs fe).2 h)
+
+theorem remove_spec (gs : List (Bytes × List Json.FieldE)) (k : Bytes) (hn : NoDupKeys gs) :
+    Json.groupRemove gs k =
+      match (proj gs).lookup k with
+      | none => none
+      | some _ => (gs.find? (fun p => p.1 == k)).map fun p => (p.2, gs.filter (fun p => !(p.1 == k))) := by
+  induction gs with
+  | nil => simp [Json.groupRemove, proj, Dom.KeyMap.lookup]
+  | cons p rest ih =>
+    obtain ⟨k0, vs⟩ := p
+    simp only [NoDupKeys] at hn
+    by_cases hk : k0 = k
+    · subst hk
+      have hf : rest.filter (fun p => !(p.1 == k0)) = rest := by
+        apply List.filter_eq_self.mpr
+        intro a ha; simpa using hn.1 a ha
+      simp [Json.groupRemove, proj, Dom.KeyMap.lookup, hf]
+    · have ih' := ih hn.2
+      simp only [proj] at ih'
+      simp only [Json.groupRemove, hk, if_false, ih', proj, List.map_cons, Dom.KeyMap.lookup]
+      cases hl : Dom.KeyMap.lookup (List.map (fun p => (p.1, List.map ovJ p.2)) rest) k with
+      | none => simp
+      | some x =>
+        have hne : (k0 == k) = false := by simpa using hk
+        simp only [List.find?_cons, hne, List.filter_cons]
+        cases List.find? (fun p => p.1 == k) rest with
+        | none => simp
+        | some q => simp [hk]
+
+
+theorem lookup_proj (gs : List (Bytes × List Json.FieldE)) (k : Bytes) :
+    (proj gs).lookup k = (gs.find? (fun p => p.1 == k)).map fun p => p.2.map ovJ := by
+  induction gs with
+  | nil => simp [proj, Dom.KeyMap.lookup]
+  | cons p rest ih =>
+    obtain ⟨k0, vs⟩ := p
+    simp only [proj] at ih
+    by_cases hk : k0 = k
+    · simp [proj, Dom.KeyMap.lookup, hk]
+    · have hne : (k0 == k) = false := by simpa using hk
+      simp [proj, Dom.KeyMap.lookup, hk, List.find?_cons, hne, ih]
+
+theorem proj_filter (gs : List (Bytes × List Json.FieldE)) (k : Bytes) :
+    proj (gs.filter (fun p => !(p.1 == k))) = (proj gs).erase k := by
+  induction gs with
+  | nil => simp [proj, Dom.KeyMap.erase]
+  | cons p rest ih =>
+    obtain ⟨k0, vs⟩ := p
+    simp only [proj, Dom.KeyMap.erase] at ih
+    by_cases hk : k0 = k <;> simp [proj, Dom.KeyMap.erase, List.filter_cons, hk, ih]
+
+theorem nodup_filter {α : Type} (gs : List (Bytes × α)) (q : Bytes × α → Bool) (h : NoDupKeys gs) :
+    NoDupKeys (gs.filter q) := by
+  induction gs with
+  | nil => simpa using h
+  | cons p rest ih =>
+    obtain ⟨k0, vs⟩ := p
+    simp only [NoDupKeys] at h
+    simp only [List.filter_cons]
+    split
+    · simp only [NoDupKeys]
+      exact ⟨fun p hp => h.1 p (List.mem_filter.mp hp).1, ih h.2⟩
+    · exact ih h.2
+
+def groupOutJ (p : Json.FieldE × List Json.FieldE) : Dom.Field × List Dom.OpValue :=
+  (jField p.1, (p.1 :: p.2).map ovJ)
+
+theorem json_groups_iter : ∀ (fs : List Json.FieldE) (gs : List (Bytes × List Json.FieldE)), NoDupKeys gs →
+    (jsonGroups fs gs).map groupOutJ = (Dom.groupsIter (fs.map jField) (proj gs)).map Dom.groupOut := by
+  intro fs
+  induction fs with
+  | nil => intro gs _; simp [jsonGroups, Dom.groupsIter]
+  | cons fe rest ih =>
+    intro gs hn
+    have hkb : (jField fe).keyBytes = Json.keyBytes fe.keyTok := rfl
+    rw [jsonGroups, remove_spec gs _ hn, List.map_cons, Dom.groupsIter, hkb, lookup_proj]
+    cases hf : gs.find? (fun p => p.1 == Json.keyBytes fe.keyTok) with
+    | none => simp only [Option.map_none]; exact ih gs hn
+    | some p =>
+      simp only [Option.map_some, List.map_cons]
+      rw [ih _ (nodup_filter gs _ hn), proj_filter]
+      congr 1
+      cases hp : p.2 with
+      | nil => simp [groupOutJ, Dom.groupOut, Dom.GroupEntry.toList, ovJ, hp]
+      | cons m more => simp [groupOutJ, Dom.groupOut, Dom.GroupEntry.toList, ovJ, hp]
+
+/-- C17 bridge, groups: the groups the JSON model's `FieldGroupsIter` yields (`groupEntries`
+serializes exactly these, `json_groupEntries`) are the Dom model's, i.e. the stable group-by-key
+of the fields: each distinct key once, in order of first appearance, with exactly its
+`(operator, value)` pairs in field order. -/
+theorem json_groups (fs : List Json.FieldE) :
+    (jsonGroups fs (Json.buildGroups fs)).map groupOutJ = Dom.groupBy (fs.map jField) ∧
+    (jsonGroups fs (Json.buildGroups fs)).map groupOutJ =
+      (Dom.groupsIter (fs.map jField) (Dom.buildMap (fs.map jField) [])).map Dom.groupOut := by
+  have hn : NoDupKeys (Json.buildGroups fs) := build_nodup fs [] (by simp [NoDupKeys])
+  have h := json_groups_iter fs _ hn
+  have hp : proj (Json.buildGroups fs) = Dom.buildMap (fs.map jField) [] := by
+    simpa [Json.buildGroups, proj] using proj_build fs []
+  rw [hp] at h
+  exact ⟨h.trans (Dom.fieldGroups_eq_groupBy _), h⟩
+
 end Jomini.DomBridge
